@@ -1250,6 +1250,207 @@ Error JitAllocator::scoped_write(WriteScopeData& scope, Span& span, WriteFunc wr
   return write(span, write_fn, user_data, scope.policy);
 }
 
+// JitAllocator - Verification Hook (H2)
+// ====================================
+
+#if defined(ASMJIT_VERIF)
+// Walks every pool and block under the allocator's own lock and checks that the bookkeeping is consistent with
+// the bit vectors. Read-only. Returns 0 when consistent, otherwise an invariant number with a message in `msg`.
+//
+//   info[0] = blocks, info[1] = blocks flagged empty, info[2] = blocks that hold nothing but initial padding,
+//   info[3] = allocations counted from stop bits, info[4] = used bytes counted from used bits (incl. padding),
+//   info[5] = reserved bytes, info[6] = padding bytes, info[7] = pool_count
+extern "C" int asmjit_verif_jitallocator_check(const void* allocator_ptr, char* msg, size_t msg_size, size_t* info) {
+  const JitAllocator* allocator = static_cast<const JitAllocator*>(allocator_ptr);
+  for (size_t i = 0; i < 8; i++) {
+    info[i] = 0;
+  }
+  if (msg_size) {
+    msg[0] = '\0';
+  }
+
+  if (allocator->_impl == &JitAllocatorImpl_none) {
+    return 0;
+  }
+
+  JitAllocatorPrivateImpl* impl = static_cast<JitAllocatorPrivateImpl*>(allocator->_impl);
+  LockGuard guard(impl->lock);
+
+  size_t total_allocations = 0;
+  info[7] = impl->pool_count;
+
+#define VERIF_FAIL(ID, ...) do { snprintf(msg, msg_size, __VA_ARGS__); return ID; } while (0)
+
+  for (size_t pool_id = 0; pool_id < impl->pool_count; pool_id++) {
+    JitAllocatorPool& pool = impl->pools[pool_id];
+    size_t block_count = 0;
+    size_t flagged_empty = 0;
+    size_t area_size_sum[2] {};
+    size_t area_used_sum[2] {};
+
+    JitAllocatorBlock* prev = nullptr;
+    bool cursor_found = pool.cursor == nullptr;
+
+    for (JitAllocatorBlock* block = pool.blocks.first(); block; prev = block, block = block->next()) {
+      block_count++;
+      if (block_count > 1000000u) {
+        VERIF_FAIL(1, "pool %zu: block list does not terminate", pool_id);
+      }
+      if (block->prev() != prev) {
+        VERIF_FAIL(2, "pool %zu: block list links are not symmetric", pool_id);
+      }
+      if (block->pool() != &pool) {
+        VERIF_FAIL(3, "pool %zu: block belongs to another pool", pool_id);
+      }
+      if (block == pool.cursor) {
+        cursor_found = true;
+      }
+      if (impl->tree.get(block->rx_ptr()) != block || impl->tree.get(block->rx_ptr() + block->block_size() - 1) != block) {
+        VERIF_FAIL(4, "pool %zu: block %p is in the list but not found through the tree", pool_id, (void*)block->rx_ptr());
+      }
+
+      uint32_t area_size = block->area_size();
+      uint32_t start = block->initial_area_start();
+      uint32_t used = 0;
+      uint32_t allocations = 0;
+      uint32_t max_free_run = 0;
+      uint32_t first_free = area_size;
+      uint32_t last_free_end = 0;
+
+      if (size_t(area_size) * pool.granularity < block->block_size()) {
+        VERIF_FAIL(5, "pool %zu: area does not cover the block", pool_id);
+      }
+
+      uint32_t i = 0;
+      while (i < area_size) {
+        bool u = Support::bit_vector_get_bit(block->_used_bit_vector, i);
+        bool st = Support::bit_vector_get_bit(block->_stop_bit_vector, i);
+        if (!u) {
+          if (st) {
+            VERIF_FAIL(6, "pool %zu block %p: stop bit %u set in unused area", pool_id, (void*)block->rx_ptr(), i);
+          }
+          uint32_t j = i;
+          while (j < area_size && !Support::bit_vector_get_bit(block->_used_bit_vector, j)) {
+            if (Support::bit_vector_get_bit(block->_stop_bit_vector, j)) {
+              VERIF_FAIL(6, "pool %zu block %p: stop bit %u set in unused area", pool_id, (void*)block->rx_ptr(), j);
+            }
+            j++;
+          }
+          max_free_run = Support::max(max_free_run, j - i);
+          first_free = Support::min(first_free, i);
+          last_free_end = j;
+          i = j;
+        }
+        else {
+          uint32_t j = i;
+          for (;;) {
+            if (j >= area_size) {
+              VERIF_FAIL(7, "pool %zu block %p: used run starting at %u has no stop bit", pool_id, (void*)block->rx_ptr(), i);
+            }
+            if (!Support::bit_vector_get_bit(block->_used_bit_vector, j)) {
+              VERIF_FAIL(7, "pool %zu block %p: used run starting at %u ends at %u without a stop bit", pool_id, (void*)block->rx_ptr(), i, j);
+            }
+            if (Support::bit_vector_get_bit(block->_stop_bit_vector, j)) {
+              break;
+            }
+            j++;
+          }
+          used += j + 1 - i;
+          if (!(i == 0 && start == 1)) {
+            allocations++;
+          }
+          else if (j != 0) {
+            VERIF_FAIL(8, "pool %zu block %p: initial padding merged with an allocation", pool_id, (void*)block->rx_ptr());
+          }
+          i = j + 1;
+        }
+      }
+
+      if (used != block->area_used()) {
+        VERIF_FAIL(9, "pool %zu block %p: area_used=%u but %u bits are used", pool_id, (void*)block->rx_ptr(), block->area_used(), used);
+      }
+      if (start && !Support::bit_vector_get_bit(block->_used_bit_vector, 0)) {
+        VERIF_FAIL(10, "pool %zu block %p: initial padding is not reserved", pool_id, (void*)block->rx_ptr());
+      }
+
+      bool really_empty = used == start;
+      if (block->is_empty()) {
+        flagged_empty++;
+        if (!really_empty) {
+          VERIF_FAIL(11, "pool %zu block %p: flagged empty with %u allocations", pool_id, (void*)block->rx_ptr(), allocations);
+        }
+      }
+      info[2] += size_t(really_empty);
+
+      if (block->is_incremental()) {
+        // Fast path promise: [search_start, search_start + largest_unused_area) is free and inside the block.
+        uint32_t ss = block->_search_start;
+        uint32_t lu = block->_largest_unused_area;
+        if (ss > area_size || lu > area_size - ss) {
+          VERIF_FAIL(12, "pool %zu block %p: incremental window [%u,+%u) exceeds area %u", pool_id, (void*)block->rx_ptr(), ss, lu, area_size);
+        }
+        for (uint32_t k = ss; k < ss + lu; k++) {
+          if (Support::bit_vector_get_bit(block->_used_bit_vector, k)) {
+            VERIF_FAIL(13, "pool %zu block %p: incremental block promises [%u,+%u) free but %u is used", pool_id, (void*)block->rx_ptr(), ss, lu, k);
+          }
+        }
+      }
+      else if (!block->is_dirty()) {
+        if (max_free_run > block->_largest_unused_area) {
+          VERIF_FAIL(15, "pool %zu block %p: clean block caches largest_unused_area=%u but a free run of %u exists", pool_id, (void*)block->rx_ptr(), block->_largest_unused_area, max_free_run);
+        }
+      }
+      if (!block->is_incremental() && max_free_run != 0) {
+        if (first_free < block->_search_start || last_free_end > block->_search_end) {
+          VERIF_FAIL(16, "pool %zu block %p: free granules [%u,%u) lie outside the search window [%u,%u)", pool_id, (void*)block->rx_ptr(), first_free, last_free_end, block->_search_start, block->_search_end);
+        }
+      }
+
+      size_t stat_index = size_t(block->has_large_pages());
+      area_size_sum[stat_index] += area_size;
+      area_used_sum[stat_index] += used;
+      total_allocations += allocations;
+
+      info[3] += allocations;
+      info[4] += size_t(used) * pool.granularity;
+      info[5] += size_t(area_size) * pool.granularity;
+      info[6] += size_t(start) * pool.granularity;
+    }
+
+    if (!cursor_found) {
+      VERIF_FAIL(17, "pool %zu: cursor points to a block that is not in the list", pool_id);
+    }
+    if ((pool.cursor == nullptr) != (block_count == 0)) {
+      VERIF_FAIL(18, "pool %zu: cursor/null mismatch with %zu blocks", pool_id, block_count);
+    }
+    if (block_count != pool.block_count) {
+      VERIF_FAIL(19, "pool %zu: block_count=%u but the list holds %zu blocks", pool_id, pool.block_count, block_count);
+    }
+    // A stale (too high) counter only makes the pool release an empty block earlier than necessary; a counter that
+    // is too low makes it retain more empty blocks than the policy allows.
+    if (flagged_empty > pool.empty_block_count) {
+      VERIF_FAIL(20, "pool %zu: empty_block_count=%u but %zu blocks are flagged empty", pool_id, unsigned(pool.empty_block_count), flagged_empty);
+    }
+    for (size_t k = 0; k < 2; k++) {
+      if (area_size_sum[k] != pool.total_area_size[k] || area_used_sum[k] != pool.total_area_used[k]) {
+        VERIF_FAIL(21, "pool %zu: totals[%zu] size=%zu used=%zu but blocks sum to size=%zu used=%zu", pool_id, k,
+                   pool.total_area_size[k], pool.total_area_used[k], area_size_sum[k], area_used_sum[k]);
+      }
+    }
+
+    info[0] += block_count;
+    info[1] += flagged_empty;
+  }
+
+  if (total_allocations != impl->allocation_count) {
+    VERIF_FAIL(22, "allocation_count=%zu but stop bits delimit %zu allocations", impl->allocation_count, total_allocations);
+  }
+
+#undef VERIF_FAIL
+  return 0;
+}
+#endif // ASMJIT_VERIF
+
 // JitAllocator - Tests
 // ====================
 
